@@ -175,10 +175,10 @@ func ruleP08IoVerbatim(p *Prog, r *Report) {
 	// ReadFile
 	nOK := 0
 	for i, ret := range returnsOf(rf) {
-		if len(ret.Results) != 2 || p.nilnessAt(ret.Block(), ret.Results[1], 0) == nnNonNil {
+		if len(ret.Results) != 2 || p.nilnessAt(ret.Block(), retResult(ret, 1), 0) == nnNonNil {
 			continue
 		}
-		src := bytesOrStringOf(derefFlow(ret.Results[0]))
+		src := bytesOrStringOf(derefFlow(retResult(ret, 0)))
 		c, idx := callOf(src)
 		ok := c != nil && idx == 0 && staticCallee(c) != nil && staticCallee(c).String() == "os.ReadFile"
 		if ok {
@@ -261,10 +261,10 @@ func ruleP05FreshRead(p *Prog, r *Report) {
 	}
 	r.check(okReader, rule, "reader", p.instrPos(rc), "the retriever reads through app.ReadFile", "the file retriever of RetrieveTargetFile does not read through app.ReadFile")
 	for i, ret := range returnsOf(rt) {
-		if len(ret.Results) != 2 || p.nilnessAt(ret.Block(), ret.Results[1], 0) == nnNonNil {
+		if len(ret.Results) != 2 || p.nilnessAt(ret.Block(), retResult(ret, 1), 0) == nnNonNil {
 			continue
 		}
-		v := strip(ret.Results[0])
+		v := strip(retResult(ret, 0))
 		ok := false
 		if u, isU := v.(*ssa.UnOp); isU && u.Op == token.MUL {
 			if ia, isIA := u.X.(*ssa.IndexAddr); isIA {
@@ -646,7 +646,7 @@ func ruleP08Blank(p *Prog, r *Report) {
 	}
 	// the library spelling: strings.Trim/TrimLeft/TrimRight(text, " \t") == ""
 	for _, ret := range returnsOf(f) {
-		if bo, ok := strip(ret.Results[0]).(*ssa.BinOp); ok && bo.Op == token.EQL && len(returnsOf(f)) == 1 {
+		if bo, ok := strip(retResult(ret, 0)).(*ssa.BinOp); ok && bo.Op == token.EQL && len(returnsOf(f)) == 1 {
 			if es, isS := constString(bo.Y); isS && es == "" {
 				if tc, _ := callOf(strip(bo.X)); tc != nil && staticCallee(tc) != nil {
 					switch staticCallee(tc).String() {
@@ -682,7 +682,7 @@ func ruleP08Blank(p *Prog, r *Report) {
 	why := ""
 	nFalse := 0
 	for _, ret := range returnsOf(f) {
-		b, isB := constBool(ret.Results[0])
+		b, isB := constBool(retResult(ret, 0))
 		if !isB {
 			okAll, why = false, "a return value that is not a constant"
 			continue
@@ -756,7 +756,7 @@ func ruleP09FirstSummaryLine(p *Prog, r *Report) {
 		return
 	}
 	n := 0
-	eachInstr(f, func(in ssa.Instruction) {
+	eachInstrIn(withAnons(f), func(in ssa.Instruction) {
 		bo, ok := in.(*ssa.BinOp)
 		if !ok || (bo.Op != token.NEQ && bo.Op != token.EQL) {
 			return
@@ -965,7 +965,7 @@ func ruleP13Reduce(p *Prog, r *Report) {
 		}
 		rec := f.Params[1]
 		for i, ret := range returnsOf(f) {
-			v := strip(ret.Results[0])
+			v := strip(retResult(ret, 0))
 			if isNilConst(v) {
 				continue
 			}
@@ -1081,7 +1081,7 @@ func ruleP14SortKey(p *Prog, r *Report) {
 		for _, a := range sl.AnonFuncs {
 			for _, ret := range returnsOf(a) {
 				// (<= is as good as <: the keys are unique, one row per name/value pair of the map)
-				if bo, ok := strip(ret.Results[0]).(*ssa.BinOp); ok && (bo.Op == token.LSS || bo.Op == token.LEQ) {
+				if bo, ok := strip(retResult(ret, 0)).(*ssa.BinOp); ok && (bo.Op == token.LSS || bo.Op == token.LEQ) {
 					_, f1 := fieldLoad(bo.X)
 					_, f2 := fieldLoad(bo.Y)
 					if f1 == "keyForSort" && f2 == "keyForSort" {
@@ -1129,7 +1129,7 @@ func ruleP16DateStrict(p *Prog, r *Report) {
 	if r.anchorFn(rule, c2d, "klog.civil2Date") {
 		okv := false
 		for _, ret := range returnsOf(c2d) {
-			if !isNilConst(ret.Results[0]) {
+			if !isNilConst(retResult(ret, 0)) {
 				continue
 			}
 			for _, g := range guardsOf(ret.Block()) {
@@ -1137,6 +1137,32 @@ func ruleP16DateStrict(p *Prog, r *Report) {
 					if strip(rv) == ssa.Value(c2d.Params[0]) || derefIsParam(rv, c2d.Params[0]) {
 						okv = true
 					}
+				}
+			}
+		}
+		// the same test as one operand of an || : the edge taken when IsValid() is false rejects
+		for _, b := range c2d.Blocks {
+			iff, isIf := b.Instrs[len(b.Instrs)-1].(*ssa.If)
+			if !isIf {
+				continue
+			}
+			for _, g := range flattenCond(iff.Cond, true, iff) {
+				nm, rv, _, _ := methodCall(g.Cond)
+				if nm != "IsValid" || !(strip(rv) == ssa.Value(c2d.Params[0]) || derefIsParam(rv, c2d.Params[0])) {
+					continue
+				}
+				// g.Pol tells which successor is taken when IsValid() is TRUE
+				invalid := b.Succs[1]
+				if !g.Pol {
+					invalid = b.Succs[0]
+				}
+				if msg := rejectComplete(invalid, func(ret *ssa.Return) string {
+					if !isNilConst(retResult(ret, 0)) {
+						return "returns a date"
+					}
+					return ""
+				}); msg == "" {
+					okv = true
 				}
 			}
 		}
@@ -1193,7 +1219,7 @@ func ruleP16DurationParts(p *Prog, r *Report) {
 	}
 	okd := false
 	for _, ret := range returnsOf(f) {
-		if !isNilConst(ret.Results[0]) {
+		if !isNilConst(retResult(ret, 0)) {
 			continue
 		}
 		empty := map[int]bool{}
@@ -1245,7 +1271,7 @@ func ruleP19Persist(p *Prog, r *Report) {
 	r.check(okData, rule, "data", p.instrPos(w), "writes ToJson() of the collection that was read and manipulated", "what is written is not ToJson() of the collection read by ReadBookmarks")
 	for i, ret := range returnsOf(f) {
 		key := fmt.Sprintf("return#%d", i)
-		v := ret.Results[0]
+		v := retResult(ret, 0)
 		if p.nilnessAt(ret.Block(), v, 0) == nnNonNil {
 			r.ok(rule, key, p.instrPos(ret), "reports a failure")
 			continue
@@ -1273,7 +1299,7 @@ func ruleP19ValidName(p *Prog, r *Report) {
 	var dnf []string
 	okAll := true
 	for _, ret := range returnsOf(f) {
-		alts, ok := truthAlts(ret.Results[0], 0)
+		alts, ok := truthAlts(retResult(ret, 0), 0)
 		if !ok {
 			okAll = false
 			continue
@@ -1311,7 +1337,7 @@ func ruleP20Tags(p *Prog, r *Report) {
 	n := 0
 	for i, ret := range returnsOf(f) {
 		key := fmt.Sprintf("return#%d", i)
-		v := derefFlow(ret.Results[0])
+		v := derefFlow(retResult(ret, 0))
 		if elems, ok := sliceLitElems(v); ok && len(elems) == 0 {
 			// the empty list: only when ToStrings gave nil
 			r.ok(rule, key, p.instrPos(ret), "empty list")
@@ -1698,7 +1724,7 @@ func ruleP05ToInt(p *Prog, r *Report) {
 	recv := f.Params[0]
 	for i, ret := range returnsOf(f) {
 		key := fmt.Sprintf("return#%d", i)
-		v := ret.Results[0]
+		v := retResult(ret, 0)
 		// int(c)
 		x := v
 		for {
@@ -2137,9 +2163,27 @@ func ruleP18PrintVerbatim(p *Prog, r *Report) {
 					})
 				}
 			case ssa.CallInstruction:
+				// strings.Builder is concatenation by another name
+				if callee := staticCallee(x); callee != nil && (callee.String() == "(*strings.Builder).WriteString" || callee.String() == "(*strings.Builder).Write") {
+					recv := x.Common().Args[0]
+					for _, g := range withAnons(f) {
+						eachInstr(g, func(in ssa.Instruction) {
+							if sc, ok := in.(*ssa.Call); ok && staticCallee(sc) != nil && staticCallee(sc).String() == "(*strings.Builder).String" && sameValue(sc.Call.Args[0], recv) {
+								work = append(work, sc)
+							}
+						})
+					}
+					continue
+				}
 				bad = calleeName(x) + " at " + p.instrPos(x)
 			}
 		}
 	}
 	r.check(bad == "", rule, "line-text", p.pos(f.Pos()), "the serialised lines reach the output by concatenation only", "the assembled output line is passed through "+bad+": styled and unstyled output differ by more than escape sequences (the reset sequence shields trailing blanks)")
+}
+
+func eachInstrIn(fs []*ssa.Function, fn func(ssa.Instruction)) {
+	for _, f := range fs {
+		eachInstr(f, fn)
+	}
 }
